@@ -11,11 +11,12 @@ import json
 import os
 
 from . import common
+from . import c11_cov as cov
 from . import c11_fs as fs
 from . import c11_gen as gen
 
 PROPERTY = 'C11'
-LEAN_TARGETS = ['CpProofs.C11', 'drv_c11']
+LEAN_TARGETS = ['CpProofs.C11', 'CpProofs.C11Links', 'CpProofs.C11Ext', 'drv_c11']
 DRIVER = 'drv_c11'
 THEOREMS = [
     # posixpath algebra
@@ -45,6 +46,35 @@ THEOREMS = [
     'CpProofs.C11.resolve_lexical',
     'CpProofs.C11.resolve_create',
     'CpProofs.C11.C11_physical_contained',
+    # trees WITH symbolic links (CpModel/PathLinks.lean)
+    'CpProofs.C11.walkSeg_done_lexical',
+    'CpProofs.C11.walkSeg_link_location',
+    'CpProofs.C11.walkSeg_linkFree',
+    'CpProofs.C11.C11_links_prefix_free',
+    'CpProofs.C11.C11_links_linkFree',
+    'CpProofs.C11.C11_links_weak_partial',
+    'CpProofs.C11.C11_links_weak_partial_static',
+    'CpProofs.C11.C11_links_weak_normalised',
+    'CpProofs.C11.C11_links_strong_false',
+    'CpProofs.C11.C11_links_weak_false',
+    # the concrete percent-decoder; characters that do not separate; staticfile; __len__
+    'CpProofs.C11.C11_static_contained_unquote',
+    'CpProofs.C11.C11_refused_untouched_unquote',
+    'CpProofs.C11.unquote_cons_ascii',
+    'CpProofs.C11.unquote_cons_pct',
+    'CpProofs.C11.unquote_cons_pct_invalid',
+    'CpProofs.C11.unquote_pct25',
+    'CpProofs.C11.unquote_not_idempotent',
+    'CpProofs.C11.traversal_spellings_refused',
+    'CpProofs.C11.non_traversal_spellings_plain',
+    'CpProofs.C11.one_component_below',
+    'CpProofs.C11.backslash_is_plain',
+    'CpProofs.C11.static_nul_never_served',
+    'CpProofs.C11.C11_staticfile_only_configured',
+    'CpProofs.C11.staticfile_refused_untouched',
+    'CpProofs.C11.staticfile_rel_under_root',
+    'CpProofs.C11.C11_len_contained',
+    'CpProofs.C11.session_id_noslash_one_below',
 ]
 LEVEL = 'proof'
 TECHNIQUE = ('Lean 4 proof over a transcription of posixpath.normpath/join/abspath, staticdir and '
@@ -140,15 +170,29 @@ def model_line(case, obs):
     k = case['k']
     if k == 'alg':
         return ' '.join([case['op']] + [T(a) for a in obs.get('args', case['args'])])
+    if k == 'lres':
+        if obs.get('skip'):
+            return None
+        ns = ','.join('%s:%s' % (T(loc), kd) + ((':' + T(tgt)) if kd == 'l' else '') for loc, kd, tgt in obs['nodes'])
+        return 'lresolve %s %d %s' % (ns or '-', 1 if obs['follow'] else 0, T(obs['path']))
     if k == 'static':
         if obs.get('routed') is None:
-            return None
+            rf = obs.get('routed_file')
+            if rf is None:
+                return None
+            return 'sfile %s %d %s %s %s' % (T(rf['method']), 1 if rf['match_ok'] else 0, T(rf['filename']),
+                                             T(rf['root']), obs['k1'])
         r = obs['routed']
         return 'static %s %d %s %s %s %s %s %s %s' % (
             T(r['method']), 1 if r['match_ok'] else 0, T(r['section']), T(r['dir']), T(r['root']),
             T(r['index']), T(r['path_info']), obs['k1'], obs['k2'])
     if k == 'sess_unit':
-        return 'sess %s %s %s %s' % (case['op'], T(obs['cwd']), T(obs['storage']), T(case['id']))
+        if case['op'] in ('lock-busy', 'bad-timeout'):
+            return None         # configuration corners: judged by the oracle only
+        if case['op'] == 'len':
+            return 'len %s %s' % (T(obs['cwd']), T(obs['storage']))
+        op = 'lock' if case['op'] == 'release' else case['op']
+        return 'sess %s %s %s %s' % (op, T(obs['cwd']), T(obs['storage']), T(case['id']))
     if k == 'sess_wsgi':
         if obs.get('cookie_seen') is None and case.get('cookie') is not None:
             return None     # the cookie header did not parse: session code never saw a value
@@ -192,6 +236,11 @@ def compare(case, obs, line):
         if st in ('301', '302', '303', '307'):
             st = '200'      # trailing_slash redirect after an index file was found: the tool had handled it
         return {'status': st, 'acc': no_nul(obs['acc'])}, {'status': mo, 'acc': no_nul(parse_acc(a))}
+    if k == 'lres':
+        if line == 'eloop':
+            return obs['result'], ['eloop', '']
+        kind, t = line.split(':', 1)
+        return obs['result'], [kind, U(t)]
     if k in ('sess_unit', 'sess_wsgi'):
         if line == '400':
             return {'refused': obs['refused'], 'acc': no_nul(obs['acc'])}, {'refused': True, 'acc': []}
@@ -203,6 +252,9 @@ def compare(case, obs, line):
         kind, t = line.split(':', 1)
         return obs['result'], [kind, U(t)]
     raise common.HarnessError('unknown case kind %r' % k)
+
+
+COV_HITS = set()
 
 
 def _trivial(case, obs):
@@ -227,12 +279,17 @@ def run_chunk(args):
         # the code under test does not even import / configure: every case observes that
         return [(case, {'code_raised': 'setup ' + fs.describe(e), 'oracle': [], 'hist': ['setup:code-raised']})
                 for case in cases]
+    mon = cov.start()       # which anchored lines run (sys.monitoring, one event per line and process)
     try:
         for case in cases:
             obs = sb.run(case)
             out.append((case, obs))
     finally:
+        hits = mon.hits() if mon is not None else []
+        cov.stop()
         box.__exit__(None, None, None)
+    if out:
+        out[0][1]['cov_hits'] = hits
     return out
 
 
@@ -249,6 +306,8 @@ def check_cases(ctx, cases, compare_model=True, procs=1, one_per_task=False):
         results = run_chunk((cases,))
     lines, idx = [], []
     for i, (case, obs) in enumerate(results):
+        if 'cov_hits' in obs:
+            COV_HITS.update(tuple(h) for h in obs.pop('cov_hits'))
         ctx.case(case, nontrivial=not _trivial(case, obs), key=json.dumps(case, sort_keys=True))
         for h in obs.get('hist', []):
             ctx.count(h)
@@ -266,7 +325,19 @@ def check_cases(ctx, cases, compare_model=True, procs=1, one_per_task=False):
                          'C11 %s: the code under test raised out of the runner' % case['k'])
             continue
         if compare_model:
-            l = model_line(case, obs)
+            try:
+                l = model_line(case, obs)
+                if l is not None and ('\n' in l or '\r' in l):
+                    raise ValueError('line break in an observed value')
+            except common.HarnessError:
+                raise
+            except Exception as e:
+                # an observed value of a type / shape the unchanged tree never produces (a non-string where a
+                # string is due...): that is a difference between the code and the model, not a harness error
+                ctx.compared()
+                ctx.disagree(case, 'unrepresentable observation (%r): %s' % (e, str(obs)[:300]),
+                             'a driver line', 'C11 %s: the observation cannot be put to the model' % case['k'])
+                continue
             if l is not None:
                 lines.append(l)
                 idx.append(i)
@@ -278,7 +349,12 @@ def check_cases(ctx, cases, compare_model=True, procs=1, one_per_task=False):
     for i, line in zip(idx, out):
         case, obs = results[i]
         ctx.compared()
-        impl, model = compare(case, obs, line)
+        try:
+            impl, model = compare(case, obs, line)
+        except common.HarnessError:
+            raise
+        except Exception as e:
+            impl, model = 'observation not comparable (%r): %s' % (e, str(obs)[:300]), line
         if impl != model:
             if os.environ.get('C11_DEBUG'):
                 print('DISAGREE', json.dumps(case), '\n   impl ', impl, '\n   model', model)
@@ -296,25 +372,65 @@ def corpus_cases():
     return out
 
 
+def tap_selftest(ctx):
+    """The audit must see every way of touching a file (a mutated code path may use any of them)."""
+    n, blind = fs.tap_selftest()
+    ctx.extra['tap_selftest'] = {'apis_probed': n, 'blind': blind}
+    if blind:
+        raise common.HarnessError('the file-system tap does not see: %s' % ', '.join(blind))
+
+
 def run(ctx):
+    import time
+    COV_HITS.clear()
+    t0 = time.time()
+    phase = ctx.extra.setdefault('phase_s', {'lean_prepare': round(t0 - ctx.t0, 1)})
+
+    def mark(name):
+        phase[name] = round(time.time() - t0 - sum(v for k, v in phase.items() if k != 'lean_prepare'), 1)
+    tap_selftest(ctx)
     if not os.environ.get('C11_NO_CORPUS'):      # self-test switch: judge the generators alone
         check_cases(ctx, corpus_cases())
+        check_cases(ctx, gen.F32_WITNESSES)         # known findings: replayed on every run
     procs = 1 if ctx.quick() else 16
     rng = ctx.rng
     cases = []
     cases += [gen.static_case(rng) for _ in range(ctx.budget(2600, 120000))]
     cases += [gen.sess_unit_case(rng) for _ in range(ctx.budget(1500, 60000))]
     cases += [gen.sess_wsgi_case(rng) for _ in range(ctx.budget(900, 40000))]
-    cases += [gen.cleanup_case(rng) for _ in range(ctx.budget(60, 2000))]
+    cases += [gen.cleanup_case(rng) for _ in range(ctx.budget(80, 2000))]
     cases += [gen.alg_case(rng) for _ in range(ctx.budget(6000, 200000))]
     cases += [gen.resolve_case(rng) for _ in range(ctx.budget(600, 20000))]
     conc = gen.conc_cases(rng, ctx.quick())
     small = gen.enum_small(ctx.budget(3, 4))
+    small += gen.byte_class_sweep((4, rng.randrange(4)) if ctx.quick() else (1, 0))
     cases += small
+    cases += gen.sess_config_cases()
     ctx.extra['exhaustive_small_scope'] = len(small)
-    check_cases(ctx, cases, procs=procs)
+    # the sandbox flavour with symbolic links (kept together: switching the flavour rebuilds part of the tree)
+    links = [gen.links_static_case(rng) for _ in range(ctx.budget(260, 12000))]
+    links += [gen.links_sess_case(rng) for _ in range(ctx.budget(200, 8000))]
+    links += [gen.lres_case(rng) for _ in range(ctx.budget(400, 12000))]
+    mark('selftest+corpus+generate')
+    if procs > 1:
+        check_cases(ctx, cases, procs=procs)
+        check_cases(ctx, links, procs=procs)
+    else:
+        check_cases(ctx, cases + links, procs=1)
+    mark('cases')
     # two-thread schedules: each sweep is its own task (a sweep is 50-3000 scheduled runs)
     check_cases(ctx, conc, procs=min(8 if ctx.quick() else 16, os.cpu_count() or 2), one_per_task=True)
+    mark('schedules')
+    report_coverage(ctx)
+
+
+def report_coverage(ctx):
+    try:
+        c = cov.Coverage()
+        c.add_hits(COV_HITS)
+        c.report(ctx)
+    except Exception as e:       # the anchored modules do not import: the run has said so already
+        ctx.note('coverage report not possible: %r' % (e,))
 
 
 def search(ctx, around=None):
@@ -327,7 +443,10 @@ def search(ctx, around=None):
     cases += [gen.sess_unit_case(rng) for _ in range(10000)]
     cases += [gen.sess_wsgi_case(rng) for _ in range(6000)]
     cases += gen.enum_small(4)
+    cases += gen.byte_class_sweep((1, 0))
     check_cases(ctx, cases, compare_model=False, procs=16)
+    links = [gen.links_static_case(rng) for _ in range(3000)] + [gen.links_sess_case(rng) for _ in range(2000)]
+    check_cases(ctx, links, compare_model=False, procs=16)
     check_cases(ctx, gen.conc_cases(rng, ctx.quick()), compare_model=False, procs=16, one_per_task=True)
 
 
